@@ -223,8 +223,11 @@ def url_values(cfg, seq):
             vals[u] = ['m%d%s' % (seq, u), 'tail']
             segs.extend(vals[u])
         else:
-            vals[u] = 'v%d%s' % (seq, u)
-            segs.append(vals[u])
+            # also values that begin / end with characters a careless converter strips
+            pre = ['', '+', '++', '-', '.', '~', '%2B', ' ', '_'][(seq + len(u)) % 9]
+            raw = '%sv%d%s%s' % (pre, seq, u, ['', '+', '.'][seq % 3])
+            vals[u] = raw.replace('%2B', '+')
+            segs.append(raw.replace(' ', '%20'))
     return vals, '/' + '/'.join(segs)
 
 
